@@ -7,8 +7,8 @@ COMMON_NOTE = ("Trusted base (listed verbatim in evidence coverage.trusted_base 
                "(run with --no-trait-conflicts); assumed specifications of std (File read/write model, VecDeque::drain, slice/Vec/HashMap, "
                "Duration/Instant operators with a monotonic-clock model, paths as uninterpreted text, Display impls do not panic); project "
                "functions left external_body (UDP/ServerSocket impls, Server::new, thread wrappers Worker::send/receive, create_*_socket, "
-               "convert_file_path, validate_file_path, Convert::to_string, as_bytes/serialize_*). Normalisations N1 (destructuring "
-               "assignment), N2 (lambda lifting of handle_wrq's closure), N3 (clone_from) are applied to the scratch copy and listed in "
+               "convert_file_path, validate_file_path, Convert::to_string, Opcode/ErrorCode::as_bytes, serialize_data/serialize_ack). Normalisations N1 (destructuring "
+               "assignment), N2 (lambda lifting of handle_wrq's closure), N3 (clone_from), N4 (elided 'static in const &str) are applied to the scratch copy and listed in "
                "the evidence. Partial correctness only (exec_allows_no_decreases_clause on the transfer loops, listen, parse_rq/oack). ")
 C = {}
 def claim(pid, text, note, technique, design):
@@ -35,8 +35,8 @@ claim('C09', "Deductive proof (Verus): parse_options returns Ok exactly when eve
       "'The transfer uses the values' relies on C01/C08 being proved for arbitrary worker fields and on the trusted wrapper passing them on. Lower-casing (str::to_lowercase) is an uninterpreted function.", "Verus postconditions incl. prophetic &mut iteration", "DESIGN.md 4 C09")
 claim('C10', "Deductive proof (Verus) that Packet::deserialize, parse_rq, parse_oack, parse_data, parse_ack, parse_error, Convert::to_u16, Opcode/ErrorCode::from_u16 never panic or index out of bounds for ANY byte string of any length, and reject short datagrams, unknown opcodes and error codes. Convert::to_string's contract is ASSUMED (iterator adapters / from_utf8 are outside Verus) and checked by a bounded exhaustive enumeration in the thorough tier (labelled bounded).",
       "Stability (decode-encode-decode) is covered only through C11's kinds.", "Verus panic-freedom + postconditions", "DESIGN.md 4 C10")
-claim('C11', "PARTIAL. Deductive proof (Verus) that the decoder returns exactly what the RFC 1350/2347 wire layout denotes for all six packet kinds (relation decodes_to: big-endian opcode/block/error numbers, NUL-terminated strings decoded exactly - not normalised -, option pairs with recognised lower-cased names and parsed decimal values, unknown pairs skipped; the option loop by a continuation-style invariant), of Opcode/ErrorCode::from_u16 (exactly 1..6 / 0..7, value preserved) and OptionType::as_str/from_str. Opcode/ErrorCode::as_bytes use u16::to_be_bytes, which Verus cannot specify: their contracts are assumed in Verus and PROVED by complete (full-domain, fully unwound) Kani harnesses, as is the ACK layout + round trip for all u16. NOT COVERED: the serialize_* encoders and TransferOption::as_bytes (concat / to_be_bytes / usize::to_string cannot be specified in Verus here; Kani on Vec-bearing encoders did not finish), hence no machine-checked round trip for RRQ/WRQ/DATA/ERROR/OACK.",
-      "Partial coverage as stated; utf8_decode, str_lower and parse::<usize> are uninterpreted functions.", "Verus postconditions (wire layout as a relation) + complete Kani harnesses for to_be_bytes-based conversions", "DESIGN.md 4 C11")
+claim('C11', "Deductive proof (Verus) on the real code, both directions and their composition. ENCODERS: serialize_rrq/wrq/error/oack, TransferOption::as_bytes and Packet::serialize produce exactly enc(p), the RFC 1350/2347 layout as a spec function (00 op; strings as UTF-8 + NUL; options as name NUL decimal NUL in list order; big-endian numbers), for all strings and option lists (loop invariants, no bound). DECODER: returns exactly what the wire layout denotes for all six kinds (relation decodes_to; option loop by a continuation-style invariant; '(no message)' only when no NUL-terminated UTF-8 string follows). ROUND TRIP: lemma decodes_to(enc(p), q) ==> q == p for every packet whose strings are NUL-free (on their UTF-8 bytes), by induction over the option list with vstd's encode/decode_utf8 inverse lemmas. Opcode/ErrorCode::from_u16 accept exactly 1..6 / 0..7, value preserved; OptionType::as_str/from_str. to_be_bytes-based leaves (Opcode/ErrorCode::as_bytes, serialize_ack) are assumed in Verus and PROVED by complete (full-domain) Kani harnesses incl. ACK round trip for all u16; serialize_data's layout is assumed in Verus and checked only by the BOUNDED stand-in bounded_codec (all block numbers x payloads of length <= 3, 600 and 65464 bytes) - bounded, not proved. NOT PROVED: that deserialize returns Ok (rather than Err) on every RRQ/WRQ/ERROR/OACK encoding (proved for DATA/ACK); bounded_codec covers it on grammar-generated packets against an independent RFC encoder.",
+      "Assumed std facts (axioms): [..].concat() on byte slices/vectors/2-arrays is concatenation; String::as_bytes is UTF-8 (vstd for str); usize::to_string yields decimal digits that parse::<usize> maps back; to_lowercase fixes lower-case ASCII; Convert::to_string contract (bounded stand-in, C10).", "Verus postconditions against a layout spec function + decoder relation + pure round-trip lemma; complete Kani harnesses for to_be_bytes leaves; bounded stand-in for serialize_data", "DESIGN.md 4 C11")
 claim('C12', "Deductive proof (Verus) of the two dispatch clauses only: a well-formed non-request datagram is forwarded to clients[from] (its own source endpoint) and to no other channel, and a source that owns no transfer (or whose channel is closed) is answered with ERROR 4 from the listening socket; in single-port mode the listening socket's receive buffer, which all running transfers share, never shrinks and is at least the block size of every transfer started. Interleavings of K clients, per-transfer ephemeral ports, kernel filtering after connect() and thread scheduling are concurrency / OS behaviour outside contract-based verification and are NOT claimed.",
       "Only the per-datagram routing contract is decided; HashMap behaviour is vstd's model plus an assumed key model for SocketAddr.", "Verus postcondition of route_packet + listen invariant", "DESIGN.md 4 C12")
 claim('C13', "Deductive proof (Verus) of clause 1 only: at every exit of receive_file the bytes written are f0 followed by a prefix of the concatenation of the accepted blocks (Window::empty contract incl. its error case; only empty writes), and the server starts every receive worker with the configured clean-on-error policy. The delete/keep decision in the thread wrapper Worker::receive is trusted glue (unverified); clause 2 (a stale worker must not delete a newer completed upload, defect D7) is a history over two threads and is a recorded known finding, not decided by this check.",
